@@ -518,11 +518,12 @@ func (s *configurationStore) populate(ctx context.Context, configuration *config
 }
 
 func (s *configurationStore) getCommitted(ctx context.Context, id configapi.ConfigurationID) (_map.Map[string, *configapi.PathValue], error) {
-	return s.getTarget(ctx, s.committed, id)
+	return s.getTarget(ctx, s.committed, id, fmt.Sprintf("configurations-%s", id))
 }
 
 func (s *configurationStore) getApplied(ctx context.Context, id configapi.ConfigurationID) (_map.Map[string, *configapi.PathValue], error) {
-	return s.getTarget(ctx, s.applied, id)
+	// The applied values are kept in a primitive of their own: a primitive is identified by its name
+	return s.getTarget(ctx, s.applied, id, fmt.Sprintf("applied-configurations-%s", id))
 }
 
 func (s *configurationStore) store(ctx context.Context, store _map.Map[string, *configapi.PathValue], values map[string]configapi.PathValue) error {
@@ -557,7 +558,7 @@ func (s *configurationStore) store(ctx context.Context, store _map.Map[string, *
 func (s *configurationStore) getTarget(
 	ctx context.Context,
 	targets map[configapi.ConfigurationID]_map.Map[string, *configapi.PathValue],
-	id configapi.ConfigurationID) (_map.Map[string, *configapi.PathValue], error) {
+	id configapi.ConfigurationID, name string) (_map.Map[string, *configapi.PathValue], error) {
 	s.mu.RLock()
 	target, ok := targets[id]
 	s.mu.RUnlock()
@@ -574,7 +575,7 @@ func (s *configurationStore) getTarget(
 	}
 
 	var err error
-	target, err = _map.NewBuilder[string, *configapi.PathValue](s.client, fmt.Sprintf("configurations-%s", id)).
+	target, err = _map.NewBuilder[string, *configapi.PathValue](s.client, name).
 		Tag("onos-config", "path-value").
 		Codec(types.Proto[*configapi.PathValue](&configapi.PathValue{})).
 		Get(ctx)
